@@ -45,7 +45,7 @@ PROPS["C10"] = dict(
 
 _SEEK_COMMON = dict(
     engine="rc", engine_name="rc-tape", level="exploration", tape_scale=6,
-    quick=dict(cases=250), thorough=dict(cases=5000),
+    quick=dict(cases=600), thorough=dict(cases=12000),
     assumptions=["system libogg 1.3.5 is correct", "ground truth = standalone packet-level decode of each link"],
 )
 PROPS["C07"] = dict(_SEEK_COMMON, sources=["props/c07.cpp"], design_ref="3.8",
@@ -76,7 +76,7 @@ PROPS["C20"] = dict(_SEEK_COMMON, sources=["props/c20.cpp"], design_ref="3.21",
     level_note="Trusted: system libogg, harness pager, packet-level half-rate decode (vorbis_synthesis_halfrate before synthesis_init) as ground truth. Chains whose interior links have odd length are generated "
                "(1 in 6) with position checks relaxed by one sample, because the statement's clauses conflict there (DESIGN 3.21). The refusal clause (64-sample blocks) needs synthetic streams.",
     rule="case = chain (1..3 links) + op history with ov_halfrate toggles; non-trivial = a toggle after at least one read, followed by a successful seek and a data-returning read; distinct by hash of (chain, history)",
-    require_labels=["op halfrate on", "op halfrate off", "halfrate on after a read", "halfrate off after a read", "halfrate on before first read", "toggle after a read, then seek, then read", "op pcm_seek"],
+    require_labels=["op halfrate on", "op halfrate off", "halfrate on after a read", "halfrate off after a read", "halfrate on before first read", "toggle after a read, then seek, then read", "op pcm_seek", "op halfrate refused (64-sample blocks)", "synthetic (vgen) link"],
 )
 
 PROPS["C16"] = dict(
